@@ -359,7 +359,8 @@ static std::string StripAnsi(const std::string& in) {
     if (i + 1 >= in.size()) break;
     if (in[i + 1] != '[') continue;
     i += 2;
-    while (i < in.size() && !((in[i] >= 'a' && in[i] <= 'z') || (in[i] >= 'A' && in[i] <= 'Z'))) ++i;
+    // a control sequence ends with its final byte, 0x40-0x7E (ECMA-48) - a letter, but also ~ @ ` { | }
+    while (i < in.size() && !(in[i] >= 0x40 && in[i] <= 0x7e)) ++i;
   }
   return s;
 }
